@@ -6,4 +6,4 @@ cd $dir || exit 2
 echo "== $name: demo with patch:"; bash -c "$demo" 2>&1 | grep -E "^(ok|FAIL|panic|---)" | tail -2
 git apply -R patch.diff && { echo "== demo without patch:"; bash -c "$demo" 2>&1 | grep -E "^(ok|FAIL|panic|---)" | tail -2; git apply patch.diff; }
 d=/verif/seeded/$name; mkdir -p $d/demo; cp patch.diff $d/; cp -r demo/. $d/demo/ 2>/dev/null
-/verif/tools/seeded_eval.sh $d/patch.diff "$@"
+${VERIF_DIR:-/verif}/tools/seeded_eval.sh $d/patch.diff "$@"
